@@ -2,12 +2,14 @@
    (compression over encryption over raw over the I/O source) behaves as a cursor over the
    plaintext, and opening it in the order of the code (raw new + reset_position, encryption
    new, compression new, then initialize recursively) establishes the invariant. *)
+From MLA Require Import Limit.
 From MLA Require Import Base Stream EncLayer EncLayerProofs CompLayer CompLayerProofs RawLayer RawLayerProofs.
 From Coq Require Import ZifyBool ZifyNat ZifyN.
 Open Scope N_scope.
 
 Section Stack.
   Variables CHUNK TAG BLOCK LIMIT : N.
+  Local Hint Extern 0 Limit => exact LIMIT : typeclass_instances.
   Hypothesis HCHUNK : 0 < CHUNK.
   Hypothesis HTAG : 0 < TAG.
   (* CHUNK_SIZE + TAG_LENGTH <= 2^31: with the chunk bound Hchunks it puts every position of the encrypted stream
